@@ -216,6 +216,13 @@ theorem stepS_inv (cfg : Cfg) (s : State) (op : Op) (h : Inv cfg s) : Inv cfg (s
         · split
           · rename_i hr; exact dropRunning_inv cfg s c hr h
           · exact h
+  | refuse c kind =>
+    simp only [stepS, refuseCall]
+    split
+    · exact h
+    · exact emit_nocall_inv cfg _ _ (by cases kind <;> simp [calls, isCall]) (by cases kind <;> simp [ended, isEnd])
+        ⟨h.count, h.noBarge, h.trace, h.peak⟩
+  | tick n => exact ⟨h.count, h.noBarge, h.trace, h.peak⟩
 
 theorem init_inv (cfg : Cfg) : Inv cfg (init cfg) :=
   ⟨by simp [init], fun _ => rfl, by simp [init], fun n => by simp [init]⟩
